@@ -83,6 +83,11 @@ func (a *MultiClusterSubjectAccessReviewAuthorizer) Authorize(ctx context.Contex
 	if err != nil {
 		return a.decisionOnError, "", err
 	}
+	if info.UpstreamCluster != nil && info.UpstreamCluster != cluster {
+		// the request has already been bound to an upstream cluster (it will be proxied there), but the host
+		// has been moved to another cluster since: that cluster's decision must not be used for this request
+		return a.decisionOnError, "", fmt.Errorf("host %q does not belong to cluster %q any more", host, info.UpstreamCluster.Cluster)
+	}
 
 	ck := cacheKey{host: host, cluster: cluster}
 	c, loaded := a.caches.Load(ck)
